@@ -14,7 +14,8 @@ META = {
             "is exported and checked by a Gallina checker under vm_compute, and a theorem says an accepted instance is "
             "sound / behaviour-preserving on EVERY execution of a small-step semantics (range analysis as a whole, "
             "assert/overflow elimination, affine folding, liveness, dominators/SSA/DFG, remove-unused-variables, copy "
-            "elimination, DFT reordering and further passes as listed in DESIGN IV.4). (3) An executable Venom semantics "
+            "elimination, DFT reordering, SCCP, CFG passes, load elimination / DSE / CSE, memmerging, copy forwarding, instruction "
+            "selection, inliner / Mem2Var, FMP lowering (LIFO reclaim discipline) and further passes as listed in DESIGN IV.4). (3) An executable Venom semantics "
             "(Venom.v) tied to the real back end on pyrevm, used for per-pass differential search. Passes without a "
             "validator are covered by (3) only.",
     "level_note": "Trusted: Coq kernel + vm_compute; py2coq (validated per run by CPython-vs-model differential); Word256.v "
@@ -405,6 +406,111 @@ def part_range(ctx):
     return n_s + n_m
 
 
+
+FMP_FILES = ["C14/FmpLifo.v", "C14/FmpLifoProofs.v", "C14/PropsFmp.v"]
+FMP_CONTRACTS = ["""
+@external
+@payable
+def fwd(t: address) -> Bytes[64]:
+    a: uint256 = 7
+    r: Bytes[64] = raw_call(t, msg.data, max_outsize=64)
+    if len(r) > 3:
+        r = raw_call(t, msg.data, max_outsize=64, value=msg.value)
+    return r
+""", """
+@external
+def mk(t: address, n: uint256) -> address:
+    c: address = empty(address)
+    for i: uint256 in range(n, bound=3):
+        c = create_copy_of(t)
+    return c
+
+@external
+def bp(t: address, x: uint256) -> address:
+    if x > 3:
+        return create_from_blueprint(t, x, code_offset=1)
+    return create_from_blueprint(t, x + 1, x, code_offset=1, revert_on_failure=False)
+"""]
+
+
+def part_fmp(ctx):
+    """FmpLoweringPass: verified validator for the reclaim (restore) logic + dead-mark oracle (tools/vlib/c14_fmp.py)."""
+    import random
+    from vlib import c14_fmp
+    b = ctx.coq_build_cached(FMP_FILES, timeout=600)
+    rnd = random.Random(ctx.seed * 7919 + 5)
+    stats = {"programs": 0, "programs_rejected_by_lowering": 0, "functions_lowered": 0, "restores": 0, "bumps": 0, "accepted": 0,
+             "rejected": 0, "oracle_disagreements": 0, "corpus_functions": 0, "export_errors": 0}
+    samples = []
+    # corpus: the three front-end producers of dalloca, all Venom levels
+    try:
+        import vyper
+        from vyper.compiler.settings import OptimizationLevel, Settings
+        with c14_fmp.Observer() as obs:
+            for src in FMP_CONTRACTS:
+                for lvl in (OptimizationLevel.GAS, OptimizationLevel.CODESIZE, OptimizationLevel.O3):
+                    vyper.compile_code(src, output_formats=["bytecode_runtime"], settings=Settings(experimental_codegen=True, optimize=lvl))
+        for s_ in obs.samples:
+            s_["prog"], s_["src"] = "corpus", None
+        stats["corpus_functions"] = len(obs.samples)
+        stats["export_errors"] += len(obs.errors)
+        samples += obs.samples
+        if obs.errors:
+            ctx.violation("correspondence-broken", "FmpLoweringPass output could not be exported: " + obs.errors[0], {"errors": obs.errors[:5]})
+    except Exception as e:  # noqa
+        ctx.violation("correspondence-broken", "FmpLoweringPass could not be observed on the corpus contracts", {"error": repr(e)[:800]})
+    for name, src in c14_fmp.family(rnd, 80 if ctx.tier == "quick" else 800):
+        stats["programs"] += 1
+        try:
+            _, ss, ee = c14_fmp.lower(src)
+        except Exception:  # noqa  (unit-test snippets that are meant to be rejected, or need another pipeline)
+            stats["programs_rejected_by_lowering"] += 1
+            continue
+        stats["export_errors"] += len(ee)
+        if ee:
+            ctx.violation("correspondence-broken", "FmpLoweringPass output could not be exported: " + ee[0], {"venom": src, "errors": ee[:5]})
+        for s_ in ss:
+            s_["prog"], s_["src"] = name, src
+        samples += ss
+    stats["functions_lowered"] = len(samples)
+    stats["restores"] = sum(s_["restores"] for s_ in samples)
+    stats["bumps"] = sum(s_["bumps"] for s_ in samples)
+    if stats["programs"] and stats["programs_rejected_by_lowering"] * 4 > stats["programs"]:
+        ctx.violation("correspondence-broken", "most FMP family programs no longer go through the lowering pipeline", dict(stats))
+    found = False
+    res = None
+    if b["ok"] and samples:
+        try:
+            res = c14_fmp.evaluate(samples, shard=max(1, len(samples) // 12), timeout=900)
+        except RuntimeError as e:
+            ctx.violation("correspondence-broken", "the FMP LIFO validator could not be evaluated", {"error": str(e)[-1500:]})
+    for k, s_ in enumerate(samples):
+        ok = res is not None and res[k] == [1]
+        if ok:
+            stats["accepted"] += 1
+        elif res is not None:
+            stats["rejected"] += 1
+        if s_["oracle"]:
+            stats["oracle_disagreements"] += 1
+        if (res is not None and not ok and stats["rejected"] <= 2) or (s_["oracle"] and stats["oracle_disagreements"] <= 2):
+            wit = c14_fmp.search(s_["src"]) if s_["src"] else None
+            why = ("the block-entry stacks / restores of FmpLoweringPass are not a LIFO discipline (fmp_check = false)" if not ok and res is not None
+                   else "FmpLoweringPass popped a mark that is not dead: " + "; ".join(s_["oracle"][:2]))
+            if wit is not None:
+                found = True
+                ctx.violation("failing-input", "FmpLoweringPass frees memory that is still in use: reclaiming and non-reclaiming lowering of the "
+                              "same program return different data", dict(wit, why=why), key="fmp:" + s_["prog"])
+            else:
+                ctx.violation("theorem-broken" if not ok and res is not None else "correspondence-broken",
+                              "fmp_restore_sound does not apply: " + why + " (function " + s_["name"] + " of " + s_["prog"] + ")",
+                              {"theorem": "fmp_restore_sound", "why": why, "function_after": s_["text"][:6000], "certificate": s_["cert"][:2000],
+                               "venom": s_["src"]})
+    if not b["ok"] and not found:
+        ctx.violation("theorem-broken", f"{b.get('failed_lemma')} in {b['file']}",
+                      {"theorem": b.get("failed_lemma"), "file": b["file"], "coq_output": b["out"][-1500:]})
+    ctx.corr["fmp_lowering"] = stats
+    return stats["accepted"] + stats["restores"]
+
 def prebuild(ctx):
     """Called by setup_cmd: generate and compile once so that checks can reuse byte-identical inputs."""
     text, _ = gen_eval()
@@ -425,6 +531,7 @@ def prebuild(ctx):
     ctx.coq_build_cached(ELIM_FILES[1:], deps=_fix_deps() + FIX_FILES[:2] + ELIM_FILES[:1], timeout=900)
     ctx.coq_build_cached(AFF_FILES[:1], deps=FIX_MODEL_DEPS + FIX_FILES[:1] + ELIM_FILES[:1], timeout=600)
     ctx.coq_build_cached(AFF_FILES[1:], deps=_fix_deps() + FIX_FILES[:2] + ELIM_FILES[:2] + AFF_FILES[:1], timeout=900)
+    ctx.coq_build_cached(FMP_FILES, timeout=600)
     from vlib import c14_pass, c14a_part, c14d_part, c14g_part, c14l_part
     c14a_part.prebuild(ctx)
     c14d_part.prebuild(ctx)
@@ -437,6 +544,8 @@ def prebuild(ctx):
     c14_sccp.prebuild(ctx)
     c14c_part.prebuild(ctx)
     c14_pass.prebuild(ctx)
+    from vlib import c14i_part
+    ctx.coq_build_cached(c14i_part.COQ_MODEL, timeout=600)
 
 
 # ---------------------------------------------------------------- range-based check removal (clients of the range kernel)
@@ -912,7 +1021,7 @@ def part_fixpoint(ctx):
 def run(ctx):
     import time
     from vlib import (c14_fixvenom, c14_isel, c14_pass, c14_sccp, c14a_part, c14c_part, c14d_part, c14g_part, c14l_part,
-                      c14m_part, c14mm_part, c14s_part)
+                      c14i_part, c14m_part, c14mm_part, c14s_part)
     total = 0
     t = time.time()
     # phase A: the parts that regenerate and build the translated kernels (GenEval, GenRange, GenRangeClients,
@@ -930,7 +1039,7 @@ def run(ctx):
         [("cfg passes", c14g_part.part_cfg_passes), ("assembly control flow", c14g_part.part_asm_cfg)],
         [("small rewrite passes", c14l_part.part_small_passes), ("memmerging", c14mm_part.part_memmerge)],
         [("copy forwarding / elision passes", c14c_part.part_copy_passes), ("load elimination / DSE / CSE", c14m_part.part_mem_passes)],
-        [("stack model", c14s_part.part_stack)],
+        [("stack model", c14s_part.part_stack), ("inliner / mem2var validators", c14i_part.part_inline_mem2var)],
         [("passes", c14_pass.part_passes), ("rangefix/venom link", c14_fixvenom.part_fixvenom),
          ("instruction selection", c14_isel.part_isel)],
     ])
